@@ -38,6 +38,7 @@ CLAIMED = {
     "C07": ("5 C07", _FN), "C08": ("5 C08", _FN), "C09": ("5 C09", _FN),
     "C06": ("5 C06, 3.3", _SM), "C10": ("5 C10, 3.3", _SM),
     "C11": ("5 C11, 3.3", _HM), "C12": ("5 C12, 3.3", _HM),
+    "C13": ("5 C13", _FN), "C18": ("5 C18", _FN),
     "C14": ("5 C14", _RL), "C15": ("5 C15", _RL), "C16": ("5 C16", _RL), "C17": ("5 C17", _RL),
     "C19": ("5 C19", "Model checking + conformance under both configurations: the specification has no index-width variable, so every TLC-generated case of the "
             "C01-C09 instances and every program of the heap machine has ONE expected outcome; each is executed under ViewBase.set_dtype(int64) and (int32) in "
